@@ -7,5 +7,6 @@ pub mod evid;
 pub mod run;
 pub mod child;
 
+#[cfg(not(feature = "system-alloc"))]
 #[global_allocator]
 static GLOBAL: alloc::Tracker = alloc::Tracker;
